@@ -445,6 +445,47 @@ def native_replay_probe(prop, rec, test_src, tname, env):
 
 
 # ------------------------------------------------------------------------------------------------
+# native bounded stand-in (labelled as such; never counted as proof)
+# ------------------------------------------------------------------------------------------------
+
+def run_native_unit(prop, unit, tier, report):
+    crate_dir = unit["crate_dir"].replace("$REPO", REPO).replace("$VERIF", VERIF)
+    tin = os.path.join(crate_dir, "Cargo.toml.in")
+    if os.path.exists(tin):
+        open(os.path.join(crate_dir, "Cargo.toml"), "w").write(open(tin).read().replace("@REPO@", REPO))
+    lock = os.path.join(REPO, "Cargo.lock")
+    if os.path.exists(lock):
+        shutil.copy(lock, os.path.join(crate_dir, "Cargo.lock"))
+    target = os.path.join(BUILD, prop, unit["name"], "target")
+    os.makedirs(os.path.dirname(target), exist_ok=True)
+    env = dict(os.environ); env["CARGO_NET_OFFLINE"] = "true"; env["H33P_CGLUE_VERIF_DIR"] = os.path.join(VERIF, "kani", "_empty")
+    cmd = ["cargo", "run", "--offline", "--quiet", "--target-dir", target]
+    rc, out, dt = sh(cmd, env=env, cwd=crate_dir, timeout=unit.get("wall_s", {}).get(tier, 1200))
+    open(os.path.join(BUILD, prop, unit["name"], f"native-{tier}.log"), "w").write(out)
+    report["commands"].append({"unit": unit["name"], "cmd": " ".join(cmd), "cwd": crate_dir, "rc": rc, "wall_s": round(dt, 1)})
+    for root, _d, files in os.walk(os.path.join(crate_dir, "src")):
+        for f in files:
+            report["sources"].append(os.path.join(root, f))
+    cases = re.findall(r"^CASE (\S+) expect=(\S+) got=(.*?) (ok|FAIL)$", out, re.M)
+    if rc != 0 or not cases:
+        report["undecided"].append(f"{unit['name']}: native probe did not build/run (rc={rc}): " + "\n".join(out.splitlines()[-25:]))
+        return
+    if len(cases) < unit.get("min_cases", 1):
+        report["undecided"].append(f"{unit['name']}: only {len(cases)} cases ran, registered minimum is {unit.get('min_cases')}")
+    for name, expect, got, verdict in cases:
+        rec = {"unit": unit["name"], "harness": "native:" + name, "short": "native_" + name, "kind": "property",
+               "clause": unit.get("clause", "bounded native stand-in"), "backend": "native execution of the real code (bounded stand-in, NOT a proof)",
+               "checks": 1, "failed": 0 if verdict == "ok" else 1, "status": "SUCCESSFUL" if verdict == "ok" else "FAILED",
+               "covers": None, "covers_sat": None, "time_s": None, "failed_checks": [], "verdict": "pass" if verdict == "ok" else "fail",
+               "unit_cfg": unit, "raw": f"CASE {name} expect={expect} got={got} {verdict}"}
+        if verdict != "ok":
+            fc = {"description": f"C20 compare_layouts on definition pair '{name}': expected {expect}, got {got}", "location": os.path.join(crate_dir, "src/main.rs")}
+            rec["failed_checks"] = [fc]; rec["real_failed"] = [fc]
+            rec["native_case"] = {"case": name, "expected": expect, "got": got, "rerun": "cd " + crate_dir + " && " + " ".join(cmd)}
+        report["harnesses"].append(rec)
+
+
+# ------------------------------------------------------------------------------------------------
 # Verus
 # ------------------------------------------------------------------------------------------------
 
@@ -597,6 +638,10 @@ def finish(prop, cfg, tier, report, t0):
                 got_input = bool(info.get("concrete_values")) or bool(info.get("playback_test"))
             except Exception as e:  # replay is best-effort
                 replay["replay_error"] = repr(e)
+        elif rec["backend"].startswith("native"):
+            replay["failing_input"] = rec.get("native_case")
+            replay["note"] = "the failing input is the pair of interface definitions named by the case; it was executed against the real code by this run"
+            got_input = True
         elif rec["backend"].startswith("verus"):
             replay["verifier_output"] = open(os.path.join(BUILD, prop, rec["unit"], f"verus-{tier}.log")).read()[-6000:]
             replay["verus_file"] = rec.get("verus_file")
